@@ -120,7 +120,35 @@ def redundant_bypass(index, base, f, call, COMPUTE="_compute"):
     return "undecided", f"no constructor check of {S.name} was recognised that makes every member of {coll} require the transform's own keys"
 
 
-def _hook_driven_checks(index, ctx, td, ini, c, sup, T, PAIR, DICT, overridden, covering):
+def _generic_pair_check(td, overridden):
+    """Layout in which the per-pair check is ONE method of TensorDict that compares the value's shape with what a hook overridden by
+    the typed subclasses says it must be: returns (name of that method, name of the hook) or None. The method must raise ValueError
+    under a comparison one side of which comes from `cls.<hook>(...)` / `self.<hook>(...)`."""
+    for name, f in td.methods.items():
+        if name in overridden or name == "__init__":
+            continue
+        hooks = [x.func.attr for x in ast.walk(f.node) if isinstance(x, ast.Call) and isinstance(x.func, ast.Attribute) and isinstance(x.func.value, ast.Name)
+                 and x.func.value.id in ("self", "cls") and x.func.attr in overridden]
+        if len(set(hooks)) != 1:
+            continue
+        h = hooks[0]
+        defs = {a.targets[0].id: a.value for a in ast.walk(f.node) if isinstance(a, ast.Assign) and len(a.targets) == 1 and isinstance(a.targets[0], ast.Name)}
+
+        def from_hook(e):
+            e = defs.get(e.id, e) if isinstance(e, ast.Name) else e
+            return any(isinstance(x, ast.Call) and isinstance(x.func, ast.Attribute) and x.func.attr == h for x in ast.walk(e))
+
+        hc = cfg_of(f.node)
+        raises = [n for n in hc.stmt_nodes() if isinstance(n.ast, ast.Raise) and "ValueError" in norm_text(n.ast)]
+        good = bool(raises) and all(any(t.kind == "test" and any(isinstance(y, ast.Compare) and len(y.ops) == 1 and isinstance(y.ops[0], (ast.Eq, ast.NotEq))
+                                                              and (from_hook(y.left) != from_hook(y.comparators[0])) and ".shape" in norm_text(y) for y in ast.walk(t.ast.test))
+                                        for t, _ in hc.guards_of(n)) for n in raises)
+        if good:
+            return name, h
+    return None
+
+
+def _hook_driven_checks(index, ctx, td, ini, c, sup, T, PAIR, DICT, overridden, covering, SPEC=None):
     ALLPAIRS = next((n for n, f in td.methods.items() if n not in overridden and n != "__init__" and any(
         isinstance(l, ast.For) and any(isinstance(x, ast.Call) and isinstance(x.func, ast.Attribute) and x.func.attr == PAIR for x in ast.walk(l)) for l in ast.walk(f.node))), None)
     cd = covering(DICT)
@@ -163,6 +191,15 @@ def _hook_driven_checks(index, ctx, td, ini, c, sup, T, PAIR, DICT, overridden, 
                 if isinstance(e_, ast.Name) and e_.id in cls.module.functions:
                     f = cls.module.functions[e_.id]
             okh = False
+            if h == PAIR and SPEC is not None:
+                # the pair check is TensorDict's own comparison `value.shape != cls.<SPEC>(key, value)`: the typed class says what the shape
+                # must be — on every path an expression, never None ("unconstrained")
+                sf = cls.methods.get(SPEC)
+                rets = [r_ for r_ in ast.walk(sf.node) if isinstance(r_, ast.Return)] if sf is not None else []
+                oks = bool(rets) and all(r_.value is not None and not (isinstance(r_.value, ast.Constant) and r_.value.value is None) for r_ in rets)
+                ctx.require(oks, "R6", f"{cname}.{SPEC}", f"states the shape its values must have (compared by TensorDict.{PAIR})",
+                            f"{cname} does not override `{SPEC}` with a shape on every path: TensorDict.{PAIR} treats None as 'unconstrained'", cls.loc())
+                continue
             if f is not None:
                 # the hook (or the helpers it calls in the same module) raises ValueError under a comparison
                 helpers = [f] + [cls.module.functions[n.func.id] for n in ast.walk(f.node) if isinstance(n, ast.Call) and isinstance(n.func, ast.Name) and n.func.id in cls.module.functions]
@@ -196,7 +233,7 @@ def _whole_shape_rule(index, ctx, T):
     length, its number of elements, one of its entries — cannot do that for keys with two or more axes ((2, 3) and (3, 2) agree on all
     of them). Positive witness only: violated when every comparison of the class's checks is between such scalars; ok when a
     comparison between shapes as wholes is found; undecided otherwise."""
-    for cname in ("Gradients", "Jacobians"):
+    for cname in ("Gradients", "Jacobians", "GradientVectors", "JacobianMatrices"):
         cls = index.find_class(f"{T}.tensor_dict.{cname}")
         if cls is None:
             raise AnalysisError(f"anchor vanished: {cname}")
@@ -209,7 +246,35 @@ def _whole_shape_rule(index, ctx, T):
                 continue
             seen[nm] = mod.functions[nm]
             todo += [n.id for n in ast.walk(mod.functions[nm].node) if isinstance(n, ast.Name) and n.id in mod.functions]
-        bodies = [f.node for f in cls.methods.values()] + [f.node for f in seen.values()]
+        inherited = {}
+        for c_ in reversed([x for x in cls.mro if getattr(x, "module", None) is mod]):
+            inherited.update(c_.methods)  # most derived definition wins
+        for f_ in list(inherited.values()):
+            for n in ast.walk(f_.node):
+                if isinstance(n, ast.Name) and n.id in mod.functions and n.id not in seen:
+                    seen[n.id] = mod.functions[n.id]
+        # what construction runs: the methods reachable from __init__ (through self./cls. calls), with the class's own overrides
+        reach, todo2 = set(), ["__init__"]
+        while todo2:
+            nm = todo2.pop()
+            if nm in reach or nm not in inherited:
+                continue
+            reach.add(nm)
+            todo2 += [x.func.attr for x in ast.walk(inherited[nm].node) if isinstance(x, ast.Call) and isinstance(x.func, ast.Attribute) and isinstance(x.func.value, ast.Name)
+                      and x.func.value.id in ("self", "cls")]
+            todo2 += [x.attr for x in ast.walk(inherited[nm].node) if isinstance(x, ast.Attribute) and isinstance(x.value, ast.Name) and x.value.id in ("self", "cls") and x.attr in inherited]
+        seen = {}
+        todo3 = [n.id for nm in reach for n in ast.walk(inherited[nm].node) if isinstance(n, ast.Name) and n.id in mod.functions]
+        todo3 += [n.id for e in cls.class_attrs.values() if isinstance(e, ast.AST) for n in ast.walk(e) if isinstance(n, ast.Name) and n.id in mod.functions]
+        for c_ in [x for x in cls.mro if getattr(x, "module", None) is mod]:
+            todo3 += [n.id for e in c_.class_attrs.values() if isinstance(e, ast.AST) for n in ast.walk(e) if isinstance(n, ast.Name) and n.id in mod.functions]
+        while todo3:
+            nm = todo3.pop()
+            if nm in seen:
+                continue
+            seen[nm] = mod.functions[nm]
+            todo3 += [n.id for n in ast.walk(mod.functions[nm].node) if isinstance(n, ast.Name) and n.id in mod.functions]
+        bodies = [inherited[nm].node for nm in sorted(reach)] + [f.node for f in seen.values()]
 
         def kind(e, defs, depth=0):
             """'shape' (a whole shape or a slice of one), 'scalar' (a number summarising a shape), None (something else)"""
@@ -222,6 +287,10 @@ def _whole_shape_rule(index, ctx, T):
                     return "scalar"
             if isinstance(e, ast.Call):
                 f_ = e.func
+                if isinstance(f_, ast.Attribute) and isinstance(f_.value, ast.Name) and f_.value.id in ("self", "cls") and f_.attr in inherited:
+                    # what the class's own definition of that method returns
+                    ks_ = {kind(r_.value, {}, depth + 1) for r_ in ast.walk(inherited[f_.attr].node) if isinstance(r_, ast.Return) and r_.value is not None}
+                    return ks_.pop() if len(ks_) == 1 else None
                 if isinstance(f_, ast.Attribute) and f_.attr == "size" and not e.args:
                     return "shape"
                 if isinstance(f_, ast.Attribute) and f_.attr in ("dim", "numel", "nelement", "ndimension") or (isinstance(f_, ast.Attribute) and f_.attr == "size" and e.args):
@@ -260,6 +329,38 @@ def _whole_shape_rule(index, ctx, T):
                 if isinstance(c_, ast.Compare) and len(c_.ops) == 1 and isinstance(c_.ops[0], (ast.Eq, ast.NotEq, ast.Lt, ast.Gt, ast.LtE, ast.GtE)):
                     ks = (kind(c_.left, defs), kind(c_.comparators[0], defs))
                     (whole if ks == ("shape", "shape") else scalars if set(ks) <= {"scalar"} else other).append(c_)
+        if cname in ("GradientVectors", "JacobianMatrices"):
+            # flattened forms: the NUMBER of axes is fixed (1 / 2) — by an equality on it, or by comparing the shape as a whole with a tuple
+            def axes_count(e, defs):
+                e = defs[e.id][0] if isinstance(e, ast.Name) and len(defs.get(e.id, ())) == 1 else e
+                return (isinstance(e, ast.Call) and isinstance(e.func, ast.Attribute) and e.func.attr in ("dim", "ndimension") and not e.args) or \
+                    (isinstance(e, ast.Attribute) and e.attr == "ndim") or \
+                    (isinstance(e, ast.Call) and isinstance(e.func, ast.Name) and e.func.id == "len" and e.args and kind(e.args[0], defs) == "shape")
+
+            eq_, ord_ = [], []
+            tuple_cmp = []
+            for b in bodies:
+                defs = {}
+                for a_ in ast.walk(b):
+                    if isinstance(a_, ast.Assign) and len(a_.targets) == 1 and isinstance(a_.targets[0], ast.Name):
+                        defs.setdefault(a_.targets[0].id, []).append(a_.value)
+                for c_ in ast.walk(b):
+                    if isinstance(c_, ast.Compare) and len(c_.ops) == 1:
+                        sides = (c_.left, c_.comparators[0])
+                        if any(axes_count(x, defs) for x in sides):
+                            (eq_ if isinstance(c_.ops[0], (ast.Eq, ast.NotEq)) else ord_).append(c_)
+                        if isinstance(c_.ops[0], (ast.Eq, ast.NotEq)) and any(kind(x, defs) == "shape" and not isinstance(x, ast.Subscript) for x in sides):
+                            tuple_cmp.append(c_)
+            key2 = f"{cname}: the number of axes of a value is fixed"
+            if eq_ or tuple_cmp or whole:
+                ctx.ok("R6", key2, f"`{norm_text((eq_ or tuple_cmp or whole)[0])[:70]}`", cls.loc())
+            elif scalars and not other:
+                w_ = ord_[0] if ord_ else scalars[0]
+                ctx.violated("R6", key2, f"no check of {cname} compares the number of axes of a value for equality (`{norm_text(w_)[:60]}` {'bounds it from one side only' if ord_ else 'looks at one entry of the shape'}): "
+                             f"a value with extra trailing axes — shape (6, 1) for a key of 6 elements — is accepted although {cname} holds {'vectors' if cname == 'GradientVectors' else 'matrices'}", cls.loc())
+            else:
+                ctx.undecided("R6", key2, "no equality on the number of axes found, and some comparisons are of a form that is not recognised", cls.loc())
+            continue
         key_ = f"{cname}: the value's shape is compared with the key's shape as a whole"
         if whole:
             ctx.ok("R6", key_, f"`{norm_text(whole[0])[:70]}`", cls.loc())
@@ -357,7 +458,7 @@ def shape_guards_rule(index, ctx):
         ctx.require(bad is None, "R8", f"{f.short}: decides on shapes", "compares shape attributes directly",
                     (f"`{norm_text(bad[0])[:80]}` quantifies over the rows of `{bad[1]}`: for a value whose first dimension is 0 nothing is compared, so a value whose remaining shape "
                      "contradicts the key's is accepted") if bad else "", f.loc(bad[0]) if bad else f.loc())
-    ctx.floor("shape validators inspected", n, 3)
+    ctx.floor("shape validators inspected", n, 2)  # at least the per-pair and the dictionary-level validator (a single generic per-pair comparison is one)
 
 
 def check(index, ctx):
@@ -484,6 +585,7 @@ def check(index, ctx):
         "last two members overlap": ([("a",), ("b", "c"), ("c",)], [("r",)] * 3, False),
         "one member requires other keys": ([("a",), ("b",), ("c",)], [("r",), ("r",), ("s",)], False),
         "one member requires a superset": ([("a",), ("b",), ("c",)], [("r",), ("r", "s"), ("r",)], False),
+        "one member listed twice (the same object)": ([("a",), ("b",), ("a",)], [("r",)] * 3, False),
     }
     for name, (outs, reqs, should_build) in CONJ.items():
         members = []
@@ -496,6 +598,8 @@ def check(index, ctx):
         # make the required keys exactly `reqs` relation: Select(keys=o, required=r+o) -> required differ by o; use a uniform superset instead
         allk = tuple(dict.fromkeys(k for o in outs for k in o))
         members = [make_select(o, tuple(dict.fromkeys(r + allk))) for o, r in zip(outs, reqs)]
+        if "same object" in name:
+            members[-1] = members[0]  # (a collection keyed by the members themselves collapses the two)
         lst = ListV(items=tuple(members), kind="list")
         res = I.run_paths(lambda: I.instantiate(Conj, [lst], {}, Conj.node, None))
         raised = [r for r in res if r.kind == "raise" and r.exc.exc_name == "ValueError"]
@@ -700,9 +804,33 @@ def check(index, ctx):
                         f"`{norm_text(bad_r[0])[:60]}` returns the dictionary the conjunction was applied to: its type is that of the previous stage (e.g. Gradients), not the most specific type "
                         "common to the parts — for a conjunction without members that is the bottom type EmptyTensorDict" if bad_r else "", fn_.loc(bad_r[0]) if bad_r else fn_.loc(), nontrivial=False)
     # ------------------------------------------------------------------------------------------------ R5
+    def first_provider(cls_, mname, depth=0):
+        """The class that python's attribute lookup finds `mname` in: the class itself, then its bases from left to right (the built-in
+        dictionary provides every mutator)."""
+        if mname in cls_.methods or mname in cls_.aliases:
+            return cls_
+        for b in cls_.bases if depth < 6 else ():
+            if isinstance(b, str):
+                if b.split(".")[-1].split("[")[0] in ("dict", "OrderedDict", "defaultdict", "UserDict", "MutableMapping"):
+                    return b
+                continue
+            r_ = first_provider(b, mname, depth + 1)
+            if r_ is not None:
+                return r_
+        return None
+
     for mname in MUTATORS:
-        target = td.aliases.get(mname)
-        fn = td.methods.get(mname) or (td.methods.get(target) if target else None) or (td.module.functions.get(target) if target else None)  # (a module-level function bound in the class body)
+        prov = first_provider(td, mname)
+        if isinstance(prov, str):
+            ctx.violated("R5", f"TensorDict.{mname}", f"`{mname}` is found in the built-in `{prov}` before any class that blocks it (the bases of a class are searched from left to right): "
+                         "item assignment/deletion/update/pop/clear mutate the dictionary", td.loc())
+            continue
+        host = prov if prov is not None else td
+        target = host.aliases.get(mname)
+        fn = host.methods.get(mname) or (host.methods.get(target) if target else None) or (host.module.functions.get(target) if target else None)  # (a module-level function bound in the class body)
+        if fn is None and target:
+            r_ = host.lookup(target)
+            fn = r_[1] if r_ is not None else None
         if fn is None:
             ctx.violated("R5", f"TensorDict.{mname}", f"TensorDict does not rebind `{mname}`: item assignment/deletion/update/pop/clear would mutate the dictionary", td.loc())
             continue
@@ -742,6 +870,12 @@ def check(index, ctx):
     overridden = {n for sub in index.subclasses(td) for n in list(sub.methods) + list(sub.class_attrs) if n in td.methods and not n.startswith("__")}
     PAIR = sorted(n for n in overridden if n_params(td.methods[n]) == 2)
     DICT = sorted(n for n in overridden if n_params(td.methods[n]) == 1)
+    SPEC = None
+    gen_ = _generic_pair_check(td, overridden)
+    if gen_ is not None and gen_[1] in PAIR:
+        # one comparison in TensorDict against a per-class "expected shape" hook: the role of the per-pair check is played by that method
+        PAIR = [gen_[0]] + [x for x in PAIR if x != gen_[1]]
+        SPEC = gen_[1]
     if not PAIR and not DICT and _table_driven_checks(index, ctx, td, ini[1], c, sup, T):
         PAIR = DICT = None
     elif len(PAIR) != 1 or len(DICT) != 1:
@@ -749,7 +883,7 @@ def check(index, ctx):
     else:
         PAIR, DICT = PAIR[0], DICT[0]
     if PAIR is not None:
-        _hook_driven_checks(index, ctx, td, ini, c, sup, T, PAIR, DICT, overridden, covering)
+        _hook_driven_checks(index, ctx, td, ini, c, sup, T, PAIR, DICT, overridden, covering, SPEC)
     _whole_shape_rule(index, ctx, T)
     emp = index.find_class(f"{T}.tensor_dict.EmptyTensorDict")
     if emp is not None and "__init__" in emp.methods:
